@@ -126,3 +126,14 @@ PLANS["C12"] = dict(
     clauses={"every created edge joins a pairing of positive target weight; forbidden pairings never manufactured": "proved at the acceptance test (allowed.*) and bounded on whole runs",
              "distance to the target decreases": "NOT DECIDED (convergence of a Markov chain is not a contract; deliberately not tested statistically)"},
     assumptions=_MCMC_ASSUME, not_decided=["clause 2: the chain approaches the target (convergence)"])
+
+PLANS["C10"] = dict(
+    level="proof", bounded="c10",
+    modules=[dict(name="mpcc")],
+    technique="deductive verification of the real MPCC function (accept loop, inner edge test, labelling loops) over an abstract graph {adjacency, label} with cliques as opaque elements (size, membership predicate), inductive invariants and witness hints, VCs from the AST in z3/cvc5; atlas-exhaustive run-time postconditions as labelled stand-in",
+    level_text="All clauses are proved on the real source for every graph, size limit and shuffle outcome: edges unchanged, every edge claimed by exactly one cover clique and labelled (size, members, id) of that clique, cover cliques pairwise edge-disjoint cliques of the input within the limit, ids = position in the cover (unique), and the greedy-maximal clause (every listed clique within the limit is accepted or has an edge owned by a cover clique at least as large).",
+    level_note="Trusted: vf VC generator, z3/cvc5; assumed library contracts: nx.enumerate_all_cliques lists cliques of g and every edge as a 2-clique (that it lists EVERY clique is needed only to read 'every clique of the graph' in the greedy clause), shuffle / sorted(key=len, reverse=True) are permutations (sorted: descending sizes), itertools.combinations(c, 2) = pairs of distinct members, remove_edges_from, G.edges[u,v][k]=x, the f-string label is an injective encoding of (size, members, id).",
+    explanation="PROVED (117 obligations): ensures edges_unchanged, all_edges_claimed, every_edge_labelled, label_is_size_members_id, cover_disjoint, cover_within_limit, greedy_maximal; loop invariants g = G minus claimed edges, processed prefix accepted-or-blocked-by-not-smaller. BOUNDED (stand-in): every atlas graph with <= 6 vertices x limits x shuffle outcomes, labels parsed and checked; cover/edit/cover-again histories.",
+    clauses={"same vertices and edges": "proved (ensures.edges_unchanged)", "every edge exactly one label size-members-id; edges sharing a label = all pairs of the member list": "proved (all_edges_claimed, every_edge_labelled, label_is_size_members_id, cover_disjoint)",
+             "size limit respected; ids unique": "proved (cover_within_limit; id = index in cover)", "greedy-maximal": "proved (ensures.greedy_maximal)"},
+    assumptions=["nx.enumerate_all_cliques enumerates every clique of the graph (assumed; used to read the greedy clause over 'every clique')"])
